@@ -745,6 +745,9 @@ func (w *simWriter) Open(name string) (io.WriteCloser, error) {
 	if err := w.openErr[name]; err != nil {
 		return nil, err
 	}
+	if strings.HasPrefix(name, "/no/such/dir/") {
+		return nil, fmt.Errorf("open %s: no such file or directory", name)
+	}
 	b := &bytes.Buffer{}
 	if _, ok := w.files[name]; !ok {
 		w.order = append(w.order, name)
